@@ -229,6 +229,8 @@ def run(ctx):
                     meta.append(('%s/%s/%s/%s@%d' % (fmtname, dest0, wname, src, j), raised))
                     n_run += 1
     cli_traces(ctx, d, traces, meta)
+    from .. import system
+    system.run(ctx, 'C11')
     # canaries (hand-written observations)
     cans = [({'dest0': 'old', 'events': [{'e': 'open', 'mode': 'w', 'src': '', 'k': 0}, {'e': 'fail', 'mode': '', 'src': 'stream-write', 'k': 3}], 'raised': True, 'destAfter': 'new'}, 'destination-opened-before-success'),
             ({'dest0': 'old', 'events': [{'e': 'fail', 'mode': '', 'src': 'stream-write', 'k': 3}], 'raised': True, 'destAfter': 'absent'}, 'destination-damaged'),
